@@ -359,6 +359,12 @@ def matches_known(pid, rec, known):
         if k.get("property") != pid:
             continue
         m = k.get("match", {})
+        vp = m.get("__verdict_prefix__")
+        if vp is not None:
+            # matched by the verdict the property's checker gave (narrow, named clause), not by the input
+            if isinstance(rec.get("check_fail"), str) and rec["check_fail"].startswith(vp):
+                return k
+            continue
         case = rec.get("case") or {}
         if all(case.get(a) == b for a, b in m.items()):
             return k
@@ -401,11 +407,12 @@ def main_check(pid, tier, seed, replay=None):
             ctx.log(fatal)
 
     check_fails = [r for r in recs if r["check_fail"]]
-    diffs = [r for r in recs if r["diff"] and not r["check_fail"]]
+    # a record whose only checker complaint is an open known finding still counts for the correspondence
+    diffs = [r for r in recs if r["diff"] and (not r["check_fail"] or matches_known(pid, r, known))]
 
     def still_fails_check(c):
         rr = evaluate_cases(mod, [c], ctx)[0]
-        return bool(rr["check_fail"])
+        return bool(rr["check_fail"]) and not matches_known(pid, rr, known)
 
     def still_diff(c):
         rr = evaluate_cases(mod, [c], ctx)[0]
@@ -421,7 +428,7 @@ def main_check(pid, tier, seed, replay=None):
             break
         small = shrink_case(mod, r["case"], still_fails_check, ctx)
         rr = evaluate_cases(mod, [small], ctx)[0]
-        if not rr["check_fail"]:
+        if not rr["check_fail"] or matches_known(pid, rr, known):
             rr = r
         key = stable_key(rr["case"])
         if key in reported:
@@ -450,7 +457,7 @@ def main_check(pid, tier, seed, replay=None):
         if found:
             small = shrink_case(mod, found["case"], still_fails_check, ctx)
             rr = evaluate_cases(mod, [small], ctx)[0]
-            if not rr["check_fail"]:
+            if not rr["check_fail"] or matches_known(pid, rr, known):
                 rr = found
             violations.append((write_replay(pid, "violation", rr), ""))
         else:
